@@ -595,6 +595,10 @@ func (fr *Frame) execFor(s *State, x *ast.ForStmt, label string) *State {
 	}
 	// invariant on entry
 	if spec != nil {
+		for i, h := range spec.EntryHints {
+			t := fr.evalClause(s, h, bodyPos, nil)
+			fr.vc.oblige(s, fmt.Sprintf("hint.L%d.", ord), t, x.Pos(), fmt.Sprintf("loop %d entry hint %d: %s", ord, i+1, h.Text))
+		}
 		for i, inv := range spec.Invariants {
 			t := fr.evalClause(s, inv, bodyPos, nil)
 			fr.vc.oblige(s, fmt.Sprintf("inv-entry.L%d.", ord), t, x.Pos(), fmt.Sprintf("loop %d invariant %d on entry: %s", ord, i+1, inv.Text))
